@@ -65,26 +65,28 @@ Hypothesis E_pos : 0 < E.
 Hypothesis VS_le_E : VS <= E.
 Notation Inv := (Inv E).
 
-(* the key an operation promotes to most-recently-used, given the state before and its result *)
-Definition promoted (s : cache) (p : op) (o : out) : option N :=
+(* the key an operation promotes to most-recently-used and the value that entry then carries, given the
+   state before and the operation's result *)
+Definition promoted_kv (s : cache) (p : op) (o : out) : option (N * val) :=
   match p, o with
-  | Insert k _, OInsOk _ => Some (kid k)
-  | TryInsert k _, OTryOk => Some (kid k)
-  | Get q, OVal (Some _) => Some q
-  | GetEntry q, OKV (Some _) => Some q
-  | Touch q, _ => match find_id q (ents s) with Some _ => Some q | None => None end
-  | GetLru, OKV (Some x) => Some (kid (fst x))
-  | Mutate q _ _, OMutOk => Some q
+  | Insert k v, OInsOk _ => Some (kid k, v)
+  | TryInsert k v, OTryOk => Some (kid k, v)
+  | Get q, OVal (Some v) => Some (q, v)
+  | GetEntry q, OKV (Some x) => Some (q, snd x)
+  | Touch q, _ => match find_id q (ents s) with Some e => Some (q, ev e) | None => None end
+  | GetLru, OKV (Some x) => Some (kid (fst x), snd x)
+  | Mutate q nt nh, OMutOk => match find_id q (ents s) with Some e => Some (q, mutated e nt nh) | None => None end
   | _, _ => None
   end.
+Definition promoted (s : cache) (p : op) (o : out) : option N := option_map fst (promoted_kv s p o).
 
 (* shape of the entry list after a step: a sublist of the old list (same relative order), followed by
    the promoted entry when there is one *)
-Definition order_shape (l l' : list entry) (pk : option N) : Prop :=
+Definition order_shape (l l' : list entry) (pk : option (N * val)) : Prop :=
   exists S prom, l' = S ++ prom /\ subl S l /\
     match pk with
     | None => prom = []
-    | Some q => exists e, prom = [e] /\ kid (ek e) = q /\ ~ In q (kids S)
+    | Some (q, w) => exists e, prom = [e] /\ kid (ek e) = q /\ ev e = w /\ ~ In q (kids S)
     end.
 
 Lemma shape_same l : order_shape l l None.
@@ -104,7 +106,7 @@ Lemma notin_subl q (S L : list entry) : subl S L -> ~ In q (kids L) -> ~ In q (k
 Proof. intros Hs Hn Hin. apply Hn. eapply subl_in; [apply subl_map; exact Hs|exact Hin]. Qed.
 
 Lemma touch_shape s q : Inv s ->
-  order_shape (ents s) (ents (fst (do_touch s q))) (match find_id q (ents s) with Some _ => Some q | None => None end).
+  order_shape (ents s) (ents (fst (do_touch s q))) (match find_id q (ents s) with Some e => Some (q, ev e) | None => None end).
 Proof.
   intros (_ & _ & _ & _ & Hnd). unfold do_touch. destruct (find_id q (ents s)) as [e|] eqn:Hf; cbn [fst ents set_ents]; [|apply shape_same].
   exists (remove_id q (ents s)), [e]. split; [reflexivity|]. split; [apply remove_id_subl|].
@@ -115,62 +117,62 @@ Lemma removed_ents e o s l r : removed_ev e o s l = Some r -> ents (fst r) = l.
 Proof. unfold removed_ev. intros H. apply bind_some in H as (c & _ & H). now injection H as <-. Qed.
 
 Theorem step_order_shape s p o s' out evs : Inv s -> wf_op E s p ->
-  stepA E VS fixed s p o = Some (s', out, evs) -> order_shape (ents s) (ents s') (promoted s p out).
+  stepA E VS fixed s p o = Some (s', out, evs) -> order_shape (ents s) (ents s') (promoted_kv s p out).
 Proof.
   intros HI Hwf H. pose proof HI as (Hsum & Hle & Hmax & Hall & Hnd).
   destruct p; cbn [stepA wf_op] in H, Hwf;
-    try (injection H as <- <- <-; cbn [promoted]; apply shape_same).
+    try (injection H as <- <- <-; cbn [promoted_kv]; apply shape_same).
   - (* Insert *)
     destruct (insert_spec E VS E_pos VS_le_E s k v o _ HI Hwf H) as [[_ Hr]|(_ & evd & rest & t2 & rb & Hmp & _ & _ & Hr)];
-      injection Hr as -> -> ->; cbn [promoted]; [apply shape_same|]. cbn [ents set_ents].
+      injection Hr as -> -> ->; cbn [promoted_kv]; [apply shape_same|]. cbn [ents set_ents].
     destruct Hmp as (Hl & _). exists rest, [mk_entry k v (kheap k + vheap v + E)]. split; [reflexivity|].
     assert (Hsub : subl rest (ents s)) by (eapply subl_trans; [|apply (remove_id_subl (kid k))]; rewrite Hl; apply subl_app_r).
     split; [exact Hsub|]. eexists. repeat split.
     eapply notin_subl; [|apply (notin_remove_id (kid k) (ents s) Hnd)]. rewrite Hl. apply subl_app_r.
   - (* TryInsert *)
     destruct (try_insert_spec E VS E_pos VS_le_E s k v o _ HI Hwf H) as [[_ Hr]|[(_ & _ & Hr)|[(_ & _ & Hr)|(_ & Hfree & t2 & rb & _ & Hr)]]];
-      injection Hr as -> -> ->; cbn [promoted]; try apply shape_same. cbn [ents set_ents].
+      injection Hr as -> -> ->; cbn [promoted_kv]; try apply shape_same. cbn [ents set_ents].
     exists (ents s), [mk_entry k v (kheap k + vheap v + E)]. split; [reflexivity|]. split; [apply subl_refl|].
     eexists. repeat split. now destruct (find_id_none _ _ Hfree).
   - (* Get *) pose proof (touch_shape s q HI) as Ht. unfold do_touch in *. destruct (find_id q (ents s)); injection H as <- <- <-; exact Ht.
   - (* GetEntry *) pose proof (touch_shape s q HI) as Ht. unfold do_touch in *. destruct (find_id q (ents s)); injection H as <- <- <-; exact Ht.
-  - (* Touch *) pose proof (touch_shape s q HI) as Ht. cbn [promoted]. unfold do_touch in *. destruct (find_id q (ents s)); injection H as <- <- <-; exact Ht.
-  - (* GetLru *) destruct (ents s) as [|e r] eqn:El; injection H as <- <- <-; cbn [promoted]; [rewrite El; apply shape_same|].
+  - (* Touch *) pose proof (touch_shape s q HI) as Ht. cbn [promoted_kv]. unfold do_touch in *. destruct (find_id q (ents s)); injection H as <- <- <-; exact Ht.
+  - (* GetLru *) destruct (ents s) as [|e r] eqn:El; injection H as <- <- <-; cbn [promoted_kv]; [rewrite El; apply shape_same|].
     cbn [ents set_ents fst kv]. exists r, [e]. split; [reflexivity|]. split; [apply subl_skip; apply subl_refl|].
     exists e. repeat split. cbn [kids map] in Hnd. now apply NoDup_cons_iff in Hnd as [? _].
   - (* Remove *) destruct (find_id q (ents s)) as [e|] eqn:Hf; [|injection H as <- <- <-; apply shape_same].
-    apply bind_some in H as ([s1 e1] & H1 & H). injection H as <- <- <-. cbn [promoted].
+    apply bind_some in H as ([s1 e1] & H1 & H). injection H as <- <- <-. cbn [promoted_kv].
     apply removed_ents in H1. cbn [fst] in H1. rewrite H1. apply shape_sub, remove_id_subl.
   - (* RemoveEntry *) destruct (find_id q (ents s)) as [e|] eqn:Hf; [|injection H as <- <- <-; apply shape_same].
-    apply bind_some in H as ([s1 e1] & H1 & H). injection H as <- <- <-. cbn [promoted].
+    apply bind_some in H as ([s1 e1] & H1 & H). injection H as <- <- <-. cbn [promoted_kv].
     apply removed_ents in H1. cbn [fst] in H1. rewrite H1. apply shape_sub, remove_id_subl.
   - (* RemoveLru *) destruct (ents s) as [|e r] eqn:El; [injection H as <- <- <-; rewrite El; apply shape_same|].
-    apply bind_some in H as ([s1 e1] & H1 & H). injection H as <- <- <-. cbn [promoted].
+    apply bind_some in H as ([s1 e1] & H1 & H). injection H as <- <- <-. cbn [promoted_kv].
     apply removed_ents in H1. cbn [fst] in H1. rewrite H1. apply shape_sub. apply subl_skip. apply subl_refl.
   - (* RemoveMru *) destruct (ents s) as [|a r] eqn:El; [injection H as <- <- <-; rewrite El; apply shape_same|].
-    apply bind_some in H as ([s1 e1] & H1 & H). injection H as <- <- <-. cbn [promoted].
+    apply bind_some in H as ([s1 e1] & H1 & H). injection H as <- <- <-. cbn [promoted_kv].
     apply removed_ents in H1. cbn [fst] in H1. rewrite H1. apply shape_sub. apply subl_removelast.
   - (* Mutate *) pose proof (mutate_spec E VS E_pos VS_le_E s q newtag newheap o _ HI Hwf H) as Hs.
     destruct (find_id q (ents s)) as [e|] eqn:Hf; [|injection Hs as -> -> ->; apply shape_same].
     cbv zeta in Hs. destruct (find_id_some _ _ _ Hf) as (la & lb & El & Er & Hk & Hn).
-    destruct Hs as (_ & _ & _ & [(_ & _ & Hr)|[(_ & _ & evd & rest & Hmp & Hr)|(_ & Hr)]]); injection Hr as -> -> ->; cbn [promoted ents set_ents].
+    destruct Hs as (_ & _ & _ & [(_ & _ & Hr)|[(_ & _ & evd & rest & Hmp & Hr)|(_ & Hr)]]); injection Hr as -> -> ->; cbn [promoted_kv ents set_ents].
     + apply shape_sub, remove_id_subl.
-    + destruct Hmp as (Hl & _). exists rest, [mk_entry (ek e) (mutated e newtag newheap) (kheap (ek e) + newheap + E)]. split; [reflexivity|].
+    + rewrite Hf. destruct Hmp as (Hl & _). exists rest, [mk_entry (ek e) (mutated e newtag newheap) (kheap (ek e) + newheap + E)]. split; [reflexivity|].
       split; [eapply subl_trans; [|apply (remove_id_subl q)]; rewrite Hl; apply subl_app_r|].
       eexists. repeat split; [exact Hk|]. eapply notin_subl; [|apply (notin_remove_id q (ents s) Hnd)]. rewrite Hl. apply subl_app_r.
-    + exists (remove_id q (ents s)), [mk_entry (ek e) (mutated e newtag newheap) (kheap (ek e) + newheap + E)]. split; [reflexivity|].
+    + rewrite Hf. exists (remove_id q (ents s)), [mk_entry (ek e) (mutated e newtag newheap) (kheap (ek e) + newheap + E)]. split; [reflexivity|].
       split; [apply remove_id_subl|]. eexists. repeat split; [exact Hk|]. now apply notin_remove_id.
   - (* SetMaxSize *) destruct (set_max_spec E VS E_pos VS_le_E s n o _ HI H) as (evd & rest & (Hl & _) & Hr). injection Hr as -> -> ->.
-    cbn [promoted ents]. apply shape_sub. rewrite Hl. apply subl_app_r.
-  - (* Retain *) apply bind_some in H as (c & _ & H). injection H as <- <- <-. cbn [promoted ents set_ents]. apply shape_sub, subl_filter.
-  - (* Clear *) injection H as <- <- <-. cbn [promoted ents set_ents]. apply shape_sub, subl_nil_l.
-  - (* Drain *) destruct (take_ends (ents s) pat). injection H as <- <- <-. cbn [promoted ents set_ents]. apply shape_sub, subl_nil_l.
+    cbn [promoted_kv ents]. apply shape_sub. rewrite Hl. apply subl_app_r.
+  - (* Retain *) apply bind_some in H as (c & _ & H). injection H as <- <- <-. cbn [promoted_kv ents set_ents]. apply shape_sub, subl_filter.
+  - (* Clear *) injection H as <- <- <-. cbn [promoted_kv ents set_ents]. apply shape_sub, subl_nil_l.
+  - (* Drain *) destruct (take_ends (ents s) pat). injection H as <- <- <-. cbn [promoted_kv ents set_ents]. apply shape_sub, subl_nil_l.
   - (* Reserve *) destruct (add64 (len s) n); [|injection H as <- <- <-; apply shape_same].
     destruct (capacity (tb s) <? n0); [|injection H as <- <- <-; apply shape_same].
-    pose proof (realloc_same E s n0 o) as (R1 & _). destruct (do_realloc E s n0 o) as [s1 [t| |]]; injection H as <- <- <-; cbn [fst promoted] in *; rewrite R1; apply shape_same.
+    pose proof (realloc_same E s n0 o) as (R1 & _). destruct (do_realloc E s n0 o) as [s1 [t| |]]; injection H as <- <- <-; cbn [fst promoted_kv] in *; rewrite R1; apply shape_same.
   - (* TryReserve *) destruct (add64 (len s) n); [|injection H as <- <- <-; apply shape_same].
     destruct (capacity (tb s) <? n0); [|injection H as <- <- <-; apply shape_same].
-    pose proof (realloc_same E s n0 o) as (R1 & _). destruct (do_realloc E s n0 o) as [s1 [t| |]]; injection H as <- <- <-; cbn [fst promoted] in *; rewrite R1; apply shape_same.
+    pose proof (realloc_same E s n0 o) as (R1 & _). destruct (do_realloc E s n0 o) as [s1 [t| |]]; injection H as <- <- <-; cbn [fst promoted_kv] in *; rewrite R1; apply shape_same.
   - (* ShrinkTo *) unfold do_shrink in H. destruct (N.max (len s) n <? capacity (tb s)); [|injection H as <- <- <-; apply shape_same].
     cbn [shrink_orig fixed] in H. destruct (t_alloc E (N.max (len s) n) (o_alloc o)); try (injection H as <- <- <-; apply shape_same).
     destruct (capacity t <? capacity (tb s)); injection H as <- <- <-; apply shape_same.
@@ -189,8 +191,8 @@ Theorem step_order_keys s p o s' out evs : Inv s -> wf_op E s p ->
 Proof.
   intros HI Hwf H. cbv zeta. pose proof HI as (_ & _ & _ & _ & Hnd).
   destruct (step_order_shape s p o s' out evs HI Hwf H) as (S & prom & Hl & Hs & Hp).
-  rewrite Hl, kids_app. destruct (promoted s p out) as [q|].
-  - destruct Hp as (e & -> & Hk & Hnin). cbn [kids map]. rewrite Hk. f_equal.
+  rewrite Hl, kids_app. unfold promoted. destruct (promoted_kv s p out) as [[q w]|]; cbn [option_map fst].
+  - destruct Hp as (e & -> & Hk & _ & Hnin). cbn [kids map]. rewrite Hk. f_equal.
     rewrite <- (subl_filter_mem (kids S) (kids (ents s)) Hnd (subl_map _ _ _ Hs)) at 1.
     apply filter_ext_in. intros x Hx. unfold memb. rewrite existsb_app. cbn [existsb]. rewrite orb_false_r.
     destruct (N.eqb_spec x q) as [->|Hne]; cbn [negb]; [|now rewrite orb_false_r, andb_true_r].
@@ -198,5 +200,60 @@ Proof.
   - subst prom. cbn [kids map]. rewrite !app_nil_r.
     rewrite <- (subl_filter_mem (kids S) (kids (ents s)) Hnd (subl_map _ _ _ Hs)) at 1.
     apply filter_ext. intros x. now rewrite andb_true_r.
+Qed.
+
+(* ---------- the cache as a key -> value map (C04) ---------- *)
+Definition lookup (s : cache) (q : N) : option val := option_map ev (find_id q (ents s)).
+
+Lemma find_id_app_l q a b : In q (kids a) -> find_id q (a ++ b) = find_id q a.
+Proof.
+  induction a as [|e a IH]; [intros []|]. cbn [kids map app find_id]. destruct (N.eqb_spec (kid (ek e)) q); [reflexivity|].
+  intros [?|Hin]; [congruence|]. now apply IH.
+Qed.
+Lemma find_id_app_r q a b : ~ In q (kids a) -> find_id q (a ++ b) = find_id q b.
+Proof.
+  induction a as [|e a IH]; [reflexivity|]. cbn [kids map app find_id]. intros Hn. destruct (N.eqb_spec (kid (ek e)) q); [exfalso; apply Hn; now left|].
+  apply IH. intros Hin. apply Hn. now right.
+Qed.
+Lemma find_id_notin q l : ~ In q (kids l) -> find_id q l = None.
+Proof. induction l as [|e l IH]; [reflexivity|]. cbn [kids map find_id]. intros Hn. destruct (N.eqb_spec (kid (ek e)) q); [exfalso; apply Hn; now left|]. apply IH. intros Hin. apply Hn. now right. Qed.
+Lemma find_id_in q l e : find_id q l = Some e -> In e l /\ kid (ek e) = q.
+Proof. intros H. destruct (find_id_some _ _ _ H) as (la & lb & -> & _ & Hk & _). split; [apply in_or_app; right; now left|exact Hk]. Qed.
+
+(* in a list with distinct keys, a sublist finds the same entry for every key it still holds *)
+Lemma find_id_subl q (S L : list entry) : NoDup (kids L) -> subl S L -> In q (kids S) -> find_id q S = find_id q L.
+Proof.
+  intros Hnd Hs. induction Hs as [|x S L Hs IH|x S L Hs IH]; intros Hin.
+  - destruct Hin.
+  - cbn [kids map] in Hnd. apply NoDup_cons_iff in Hnd as [Hx Hnd]. cbn [find_id].
+    destruct (N.eqb_spec (kid (ek x)) q) as [Heq|]; [|auto]. exfalso. apply Hx. rewrite Heq. eapply subl_in; [apply subl_map; exact Hs|exact Hin].
+  - cbn [kids map] in Hnd, Hin. apply NoDup_cons_iff in Hnd as [Hx Hnd]. cbn [find_id].
+    destruct (N.eqb_spec (kid (ek x)) q) as [Heq|Hne]; [reflexivity|]. destruct Hin as [?|Hin]; [congruence|]. auto.
+Qed.
+
+(* every step acts on the map exactly as a sequential map would: the promoted/written key carries the
+   value the table says; every other key still present has the value it had; nothing else appears *)
+Theorem step_map s p o s' out evs : Inv s -> wf_op E s p ->
+  stepA E VS fixed s p o = Some (s', out, evs) ->
+  forall q, lookup s' q =
+    match promoted_kv s p out with
+    | Some (k, w) => if q =? k then Some w else if memb q (kids (ents s')) then lookup s q else None
+    | None => if memb q (kids (ents s')) then lookup s q else None
+    end.
+Proof.
+  intros HI Hwf H q. pose proof HI as (_ & _ & _ & _ & Hnd).
+  destruct (step_order_shape s p o s' out evs HI Hwf H) as (S & prom & Hl & Hs & Hp). unfold lookup. rewrite Hl.
+  destruct (promoted_kv s p out) as [[k w]|].
+  - destruct Hp as (e & -> & Hk & Hv & Hnin). destruct (N.eqb_spec q k) as [->|Hne].
+    + rewrite find_id_app_r by exact Hnin. cbn [find_id]. rewrite Hk, N.eqb_refl. cbn [option_map]. now rewrite Hv.
+    + rewrite kids_app. cbn [kids map]. rewrite Hk. unfold memb. rewrite existsb_app. cbn [existsb]. rewrite orb_false_r.
+      destruct (N.eqb_spec q k); [congruence|]. rewrite orb_false_r. fold (memb q (kids S)).
+      destruct (memb q (kids S)) eqn:Hm.
+      * apply memb_in in Hm. rewrite find_id_app_l by exact Hm. now rewrite (find_id_subl q S (ents s) Hnd Hs Hm).
+      * assert (Hn : ~ In q (kids S)) by (intros Hin; apply memb_in in Hin; congruence).
+        rewrite find_id_app_r by exact Hn. cbn [find_id]. rewrite Hk. destruct (N.eqb_spec k q); [congruence|reflexivity].
+  - subst prom. rewrite app_nil_r. destruct (memb q (kids S)) eqn:Hm.
+    + apply memb_in in Hm. now rewrite (find_id_subl q S (ents s) Hnd Hs Hm).
+    + assert (Hn : ~ In q (kids S)) by (intros Hin; apply memb_in in Hin; congruence). now rewrite find_id_notin.
 Qed.
 End Params.
